@@ -63,16 +63,20 @@ func GenTxPlan(rt *rapid.T, tier string) *TxPlan {
 
 const c07Account = "XC4444444444444444@xuper"
 
+// c07SetAccount is ruled by a key set {Accts[3], Accts[4]}: both have to sign.
+const c07SetAccount = "XC5555555555555555@xuper"
+
 type txRun struct {
-	rc      *RunCtx
-	w       *World
-	n       *Node
-	plan    *TxPlan
-	digests map[string]string // digest -> semantic bytes
-	prevSig map[string]*pb.SignatureInfo
-	step    int
-	acctOK  bool
-	nAdm    int // admission questions asked so far
+	rc        *RunCtx
+	w         *World
+	n         *Node
+	plan      *TxPlan
+	digests   map[string]string // digest -> semantic bytes
+	prevSig   map[string]*pb.SignatureInfo
+	step      int
+	acctOK    bool
+	setAcctOK bool
+	nAdm      int // admission questions asked so far
 	// pendingKnown is reported at the end of the run if nothing else fails
 	pendingKnowns []*Violation
 }
@@ -270,6 +274,45 @@ func (r *txRun) ensureAccount() bool {
 	if _, err := n.Mine(MineOpts{MaxTx: -1}); err != nil {
 		return false
 	}
+	// a second account ruled by a key set: every member of the (one) set has to sign
+	acl2 := fmt.Sprintf(`{"pm":{"rule":2},"akSets":{"sets":{"1":{"aks":["%s","%s"]}},"expression":"1"}}`, Accts[3].Addr, Accts[4].Addr)
+	req2 := &pb.InvokeRequest{ModuleName: "xkernel", ContractName: "$acl", MethodName: "NewAccount", Args: map[string][]byte{"account_name": []byte("5555555555555555"), "acl": []byte(acl2)}}
+	resp2, err2 := n.Chain.PreExec(n.BaseCtx(), []*pb.InvokeRequest{req2}, payer.Addr, []string{payer.Addr})
+	if err2 != nil {
+		r.rc.Log.Add("key-set account not created: %v", err2)
+	}
+	if err := err2; err == nil {
+		sp2 := &TxSpec{From: payer, Version: 3, Invoke: resp2}
+		need2 := big.NewInt(resp2.GasUsed + 5000)
+		got2 := new(big.Int)
+		for _, u := range r.spendable(payer.Addr) {
+			if got2.Cmp(need2) >= 0 {
+				break
+			}
+			sp2.Inputs = append(sp2.Inputs, u)
+			got2.Add(got2, u.Amount)
+		}
+		for i := 0; i < 5; i++ {
+			sp2.Outs = append(sp2.Outs, OutSpec{To: c07SetAccount, Amount: big.NewInt(1000)})
+		}
+		tx2, err := BuildTx(sp2)
+		if err == nil && got2.Cmp(need2) < 0 {
+			err = fmt.Errorf("payer has %s, needs %s", got2, need2)
+		}
+		if err == nil {
+			err = n.Chain.SubmitTx(n.BaseCtx(), tx2)
+		}
+		if err == nil {
+			time.Sleep(time.Second) // two award transactions of one instant would be identical
+			_, err = n.Mine(MineOpts{MaxTx: -1})
+		}
+		if err == nil {
+			r.setAcctOK = true
+			r.rc.St.Probes["akset-account-created"]++
+		} else {
+			r.rc.Log.Add("key-set account not created: %v", err)
+		}
+	}
 	r.acctOK = true
 	return true
 }
@@ -338,12 +381,26 @@ func (r *txRun) buildForm(f *TxForm) (*lpb.Transaction, []*Acct, *Acct) {
 		if !r.ensureAccount() {
 			return nil, nil, nil
 		}
-		us := r.spendable(c07Account)
+		acct := c07Account
+		if r.setAcctOK && f.A%2 == 1 {
+			acct = c07SetAccount
+		}
+		us := r.spendable(acct)
 		if len(us) == 0 {
 			return nil, nil, nil
 		}
 		u := us[f.B%len(us)]
 		ini := Accts[3]
+		if acct == c07SetAccount {
+			r.rc.St.Ops["form-account-akset"]++
+			sp := &TxSpec{From: ini, Version: 3, Inputs: []UtxoRef{u}, Outs: []OutSpec{{To: Accts[f.C%nAcct].Addr, Amount: u.Amount}}, NoChange: true,
+				AuthRequire: []string{acct + "/" + Accts[3].Addr, acct + "/" + Accts[4].Addr}, Signers: []*Acct{Accts[3], Accts[4]}}
+			tx, err := BuildTx(sp)
+			if err != nil {
+				return nil, nil, nil
+			}
+			return tx, []*Acct{Accts[3], Accts[4]}, ini
+		}
 		sp := &TxSpec{From: ini, Version: 3, Inputs: []UtxoRef{u}, Outs: []OutSpec{{To: Accts[f.C%nAcct].Addr, Amount: u.Amount}}, NoChange: true,
 			AuthRequire: []string{c07Account + "/" + Accts[3].Addr, c07Account + "/" + Accts[4].Addr}, Signers: []*Acct{Accts[3], Accts[4]}}
 		tx, err := BuildTx(sp)
@@ -431,7 +488,29 @@ func (r *txRun) doUnauthorised(f *TxForm) *Violation {
 		}
 		return nil
 	}
-	switch f.B % 3 {
+	switch f.B % 4 {
+	case 3: // key-set account: members named only as inner path elements, or one member missing
+		if !r.ensureAccount() || !r.setAcctOK {
+			return nil
+		}
+		us := r.spendable(c07SetAccount)
+		if len(us) == 0 {
+			return nil
+		}
+		u := us[f.C%len(us)]
+		m3, m4 := Accts[3].Addr, Accts[4].Addr
+		cases := []struct {
+			what    string
+			ar      []string
+			signers []*Acct
+			from    *Acct
+		}{
+			{"a spend of a key-set account's output naming the members only as inner elements of the thief's own signer paths", []string{c07SetAccount + "/" + m3 + "/" + thief.Addr, c07SetAccount + "/" + m4 + "/" + thief.Addr}, []*Acct{thief, thief}, thief},
+			{"a spend of a key-set account's output signed by one of its two members", []string{c07SetAccount + "/" + m3}, []*Acct{Accts[3]}, Accts[3]},
+			{"a spend of a key-set account's output signed by one member, the other named as an inner element", []string{c07SetAccount + "/" + m3, c07SetAccount + "/" + m4 + "/" + m3}, []*Acct{Accts[3], Accts[3]}, Accts[3]},
+		}
+		c := cases[f.A%len(cases)]
+		return try(c.what, &TxSpec{From: c.from, Version: 3, Inputs: []UtxoRef{u}, Outs: []OutSpec{{To: c.from.Addr, Amount: u.Amount}}, NoChange: true, AuthRequire: c.ar, Signers: c.signers})
 	case 0: // output of another address
 		us := r.spendable(Accts[0].Addr)
 		if len(us) == 0 {
